@@ -499,3 +499,21 @@ func (w *World) VerifTableStats() (active, retired, total int) {
 	}
 	return
 }
+
+// VerifLocate reports the row of an alive entity and the length and capacity of its table.
+func (w *World) VerifLocate(e Entity) (row, length, capacity int) {
+	if int(e.id) >= len(w.entities) || w.entities[e.id].arch == nil {
+		return -1, 0, 0
+	}
+	idx := &w.entities[e.id]
+	return int(idx.index), int(idx.arch.len), int(idx.arch.cap)
+}
+
+// VerifCapSum reports the summed capacity of all tables.
+func (w *World) VerifCapSum() int {
+	sum := 0
+	for _, a := range w.verifArchetypes() {
+		sum += int(a.cap)
+	}
+	return sum
+}
